@@ -5,8 +5,9 @@
   queue algorithm; no delay model.
 
   * `D = 3`: admitted at 1 = its planned start (the system is idle); two machines
-    are held at t = 2; both are given back inside the instant t = 3 = ast + D - 1,
-    one step before the observation ends (t = 4).
+    are held at t = 2 and all through t = 3; they are still held when the telescope
+    finishes the observation at t = 4 = ast + D, and given back later in that instant.
+    -- F13: before the repair both were given back inside the instant t = 3 = ast + D - 1.
   * `D = 2`: the machines are still held when the telescope finishes the
     observation at t = 3 = ast + D, and given back later in that instant.
 -/
@@ -63,15 +64,20 @@ def otView (k : SimState) : OtView :=
 unseal Rat.add in
 /-- duration 3, two ingest machines: the states before kernel steps 6 (the telescope's block at
 t = 1, the system idle), 7 (admitted, start 1), 17 (t = 2: two machines held), 33 (t = 3, still
-two), 35 (t = 3: both given back, the observation still RUNNING), 40 (t = 4: finished next) -/
+two), 35 (t = 3, after the two allocation processes have polled: still two), 40 (t = 4 = ast + 3:
+the telescope's block is next, two machines held, RUNNING), 41 (FINISHED, two held), 43 (one given
+back), 44 (both given back) -/
+-- F13: before the repair step 35 showed an empty pool (both machines given back at t = 3)
 theorem otSim3 :
     otView (ilSimSteps {} 6 (SimState.start (otW 3 2))) = ⟨some 1, some true, [], 0, some .waiting, some none, none, some 3, some 2⟩ ∧
     otView (ilSimSteps {} 7 (SimState.start (otW 3 2))) = ⟨some 1, some true, [], 0, some .waiting, some (some 1), none, some 3, some 2⟩ ∧
     otView (ilSimSteps {} 17 (SimState.start (otW 3 2))) = ⟨some 2, some true, [0, 1], 2, some .running, some (some 1), none, some 3, some 2⟩ ∧
     otView (ilSimSteps {} 33 (SimState.start (otW 3 2))) = ⟨some 3, some true, [0, 1], 2, some .running, some (some 1), none, some 3, some 2⟩ ∧
-    otView (ilSimSteps {} 35 (SimState.start (otW 3 2))) = ⟨some 3, some true, [], 0, some .running, some (some 1), none, some 3, some 2⟩ ∧
-    otView (ilSimSteps {} 40 (SimState.start (otW 3 2))) = ⟨some 4, some true, [], 0, some .running, some (some 1), none, some 3, some 2⟩ ∧
-    otView (ilSimSteps {} 41 (SimState.start (otW 3 2))) = ⟨some 4, some true, [], 0, some .finished, some (some 1), none, some 3, some 2⟩ := by
+    otView (ilSimSteps {} 35 (SimState.start (otW 3 2))) = ⟨some 3, some true, [0, 1], 2, some .running, some (some 1), none, some 3, some 2⟩ ∧
+    otView (ilSimSteps {} 40 (SimState.start (otW 3 2))) = ⟨some 4, some true, [0, 1], 2, some .running, some (some 1), none, some 3, some 2⟩ ∧
+    otView (ilSimSteps {} 41 (SimState.start (otW 3 2))) = ⟨some 4, some true, [0, 1], 2, some .finished, some (some 1), none, some 3, some 2⟩ ∧
+    otView (ilSimSteps {} 43 (SimState.start (otW 3 2))) = ⟨some 4, some true, [1], 1, some .finished, some (some 1), none, some 3, some 2⟩ ∧
+    otView (ilSimSteps {} 44 (SimState.start (otW 3 2))) = ⟨some 4, some true, [], 0, some .finished, some (some 1), none, some 3, some 2⟩ := by
   decide
 
 unseal Rat.add in
